@@ -2,6 +2,8 @@
   C07 line-protocol driver (the harness harness/c07_rng.cc answers the same requests):
 
     gen                                   -> the generated operand lists (diagnostic)
+    gstream <seed|default> <n>            -> as `stream`, by interpreting the translated seed / operator()
+    geq <A> <B>                           -> equal | different   (translated operator==)
     stream <seed|default> <n>             -> o0 o1 o2 o3 o(n-1) fold          (n ≥ 4)
     save <seed> <k>                       -> text <decimal text, blanks as _> | oob
     load <seedB> <j> <hex text> <n>       -> ok|fail|oob <state text> <o0 … o(n-1)>
@@ -9,8 +11,10 @@
     sup <seed32> <bound> <count>          -> v0 v1 v2 v3 fold                 (random::sup<size_t>)
     between <seed32> <a> <b> <count>      -> v0 v1 v2 v3 fold                 (random::between<int>)
 -/
-import Vita.C07.Model
+import Vita.C07.Stream
 import Vita.C07.Gen
+import Vita.C07.GenCode
+import Vita.C07.Random
 open Vita.C07 Vita.Rng
 
 def fold (h : UInt64) (o : UInt64) : UInt64 := h * 0x100000001B3 + o
@@ -31,7 +35,37 @@ def unhex (s : String) : Option Text :=
   go s.toList
 
 def engineOf (s : String) : Option Xo :=
-  if s = "default" then some (Xo.seed Xo.defSeed) else s.toNat?.map fun n => Xo.seed n.toUInt64
+  if s = "default" then some (Xo.seed Xo.defSeed)
+  else if s.startsWith "st:" then
+    match (s.splitOn ":").drop 1 |>.map String.toNat? with
+    | [some a, some b, some c, some d] => some ⟨a.toUInt64, b.toUInt64, c.toUInt64, d.toUInt64⟩
+    | _ => none
+  else s.toNat?.map fun n => Xo.seed n.toUInt64
+
+def hexOf (t : Text) : String :=
+  if t = [] then "-" else
+  let d (n : Nat) : Char := if n < 10 then Char.ofNat (48 + n) else Char.ofNat (87 + n)
+  String.ofList (t.flatMap fun c => [d (c.toNat / 16 % 16), d (c.toNat % 16)])
+
+/-- base:showbase:uppercase:showpos:width:fill:adjust:skipws:sep:grouping (see harness/c07_rng.cc) -/
+def cfgOf (s : String) : Option Cfg :=
+  match s.splitOn ":" with
+  | [b, sb, up, sp, w, f, a, ws, sep, g] =>
+    match b.toNat?, w.toNat?, f.toNat?, a.toNat? with
+    | some b, some w, some f, some a =>
+      let facet := sep ≠ "-"
+      let grouping : Option (List Nat) :=
+        if facet then (unhex g).map (·.map Char.toNat) else some []
+      match grouping, (if facet then sep.toNat? else some 44) with
+      | some gs, some sc =>
+        some { base := b, showbase := sb = "1", upper := up = "1", showpos := sp = "1", width := w,
+               fill := Char.ofNat f, adjust := a, skipws := ws = "1", facet := facet,
+               sep := Char.ofNat sc, grouping := gs }
+      | _, _ => none
+    | _, _, _, _ => none
+  | _ => none
+
+def wordsText (e : Xo) : String := s!"{e.s0} {e.s1} {e.s2} {e.s3}"
 
 def showText (t : Text) : String := String.ofList (t.map fun c => if c = ' ' then '_' else c)
 
@@ -47,6 +81,25 @@ def streamAnswer (e : Xo) (n : Nat) : String := Id.run do
     if i < 4 then firsts := firsts ++ [o]
     last := o
   return " ".intercalate ((firsts ++ [last, h]).map toString)
+
+/-- the same answer as `stream`, computed by interpreting the TRANSLATED code (GenCode.prog: seed, operator()) -/
+def gstreamAnswer (seed : UInt64) (n : Nat) : String := Id.run do
+  match U.seedOf GenCode.prog seed [0, 0, 0, 0] with
+  | none => return "undefined"
+  | some st0 =>
+    let mut st := st0
+    let mut h : UInt64 := 0
+    let mut firsts : List UInt64 := []
+    let mut last : UInt64 := 0
+    for i in [0:n] do
+      match U.nextOf GenCode.prog st with
+      | none => return "undefined"
+      | some (o, st') =>
+        st := st'
+        h := fold h o
+        if i < 4 then firsts := firsts ++ [o]
+        last := o
+    return " ".intercalate ((firsts ++ [last, h]).map toString)
 
 def stateText (e : Xo) : String :=
   match writeState Gen.writeItems e with
@@ -64,6 +117,39 @@ def drawsAnswer (count : Nat) (e : Xo) (draw : Xo → Int × Xo) : String := Id.
     if i < 4 then firsts := firsts ++ [v]
   return " ".intercalate (firsts.map toString ++ [toString h])
 
+/-- engine of the `vita::random` requests: a 32-bit seed or explicit state words -/
+def rEngineOf (s : String) : Option Xo :=
+  if s.startsWith "st:" then engineOf s
+  else s.toNat?.bind fun n => if n < 2 ^ 32 then some (Xo.seed n.toUInt64) else none
+
+def betdAnswer (count : Nat) (e : Xo) (a b : Float) : String := Id.run do
+  let mut e := e
+  let mut h : UInt64 := 0
+  let mut firsts : List UInt64 := []
+  let mut lo := 0
+  let mut eq := 0
+  let mut hi := 0
+  for i in [0:count] do
+    let (v, e') := betweenD a b e
+    e := e'
+    h := fold h v.toBits
+    if i < 4 then firsts := firsts ++ [v.toBits]
+    if v < a then lo := lo + 1
+    if v == b then eq := eq + 1
+    if v > b then hi := hi + 1
+  return " ".intercalate (firsts.map toString ++ [toString h, s!"lo={lo}", s!"eq={eq}", s!"hi={hi}"])
+
+def boolAnswer (count : Nat) (e : Xo) (p : Float) : String := Id.run do
+  let mut e := e
+  let mut h : UInt64 := 0
+  let mut ones := 0
+  for _ in [0:count] do
+    let (v, e') := boolean p e
+    e := e'
+    h := fold h (if v then 1 else 0)
+    if v then ones := ones + 1
+  return s!"{h} ones={ones}"
+
 def answer (line : String) : String :=
   match (line.trimAscii.toString.splitOn " ").filter (· ≠ "") with
   | ["gen"] =>
@@ -72,6 +158,17 @@ def answer (line : String) : String :=
   | ["stream", s, n] =>
     match engineOf s, n.toNat? with
     | some e, some n => if n ≥ 4 then streamAnswer e n else "bad-op"
+    | _, _ => "bad-op"
+  | ["gstream", s, n] =>
+    match (if s = "default" then some Xo.defSeed else s.toNat?.map Nat.toUInt64), n.toNat? with
+    | some seed, some n => if n ≥ 4 then gstreamAnswer seed n else "bad-op"
+    | _, _ => "bad-op"
+  | ["geq", sa, sb] =>
+    match engineOf sa, engineOf sb with
+    | some a, some b =>
+      match U.eqOf GenCode.prog [a.s0, a.s1, a.s2, a.s3] [b.s0, b.s1, b.s2, b.s3] with
+      | some r => (if r then "equal" else "different") ++ (if a.take 4 = b.take 4 then " same4" else " diff4")
+      | none => "undefined"
     | _, _ => "bad-op"
   | ["save", s, k] =>
     match engineOf s, k.toNat? with
@@ -103,11 +200,76 @@ def answer (line : String) : String :=
         | none => "same"
         | some i => s!"diff {i}"
     | _, _, _, _, _ => "bad-op"
+  | ["cfgrt", sa, k, sb, j, _n, cfg] =>
+    match engineOf sa, k.toNat?, engineOf sb, j.toNat?, cfgOf cfg with
+    | some a, some k, some b, some j, some c =>
+      let a := a.advance k
+      let b := b.advance j
+      match putState c Gen.writeItems c.width a with
+      | none => "oob"
+      | some t =>
+        match getState c Gen.readIdx b t false false with
+        | none => "oob"
+        | some (r, good) =>
+          (if !good then "fail" else if r = a then "same" else "diff") ++ " " ++ wordsText r ++ " " ++ hexOf t
+    | _, _, _, _, _ => "bad-op"
+  | ["cfgload", sb, j, cfg, hex, n] =>
+    match engineOf sb, j.toNat?, cfgOf cfg, unhex hex, n.toNat? with
+    | some b, some j, some c, some t, some n =>
+      match getState c Gen.readIdx (b.advance j) t false false with
+      | none => "oob"
+      | some (r, good) =>
+        (if good then "ok " else "fail ") ++ wordsText r ++
+          String.join ((r.take n).map fun o => " " ++ toString o)
+    | _, _, _, _, _ => "bad-op"
   | ["sup", s, bound, count] =>
     match s.toNat?, bound.toNat?, count.toNat? with
     | some s, some bound, some count =>
       if bound = 0 ∨ s ≥ 2 ^ 32 then "bad-op"
       else drawsAnswer count (Xo.seed s.toUInt64) fun e => let (v, e) := sup bound e; ((v : Int), e)
+    | _, _, _ => "bad-op"
+  | ["supu", s, bound, count] =>
+    match rEngineOf s, bound.toNat?, count.toNat? with
+    | some e, some bound, some count =>
+      if bound = 0 ∨ bound ≥ 2 ^ 32 then "bad-op"
+      else drawsAnswer count e fun e => let (v, e) := sup bound e; ((v : Int), e)
+    | _, _, _ => "bad-op"
+  | ["betu64", s, a, b, count] =>
+    match rEngineOf s, a.toNat?, b.toNat?, count.toNat? with
+    | some e, some a, some b, some count =>
+      if a ≥ b ∨ b ≥ 2 ^ 64 then "bad-op" else drawsAnswer count e (between a b)
+    | _, _, _, _ => "bad-op"
+  | ["inr", s, a, b, count] =>
+    match rEngineOf s, a.toInt?, b.toInt?, count.toNat? with
+    | some e, some a, some b, some count => if a ≥ b then "bad-op" else drawsAnswer count e (between a b)
+    | _, _, _, _ => "bad-op"
+  | ["elem", s, size, count] =>
+    match rEngineOf s, size.toNat?, count.toNat? with
+    | some e, some size, some count =>
+      if size = 0 then "bad-op"
+      else
+        -- the harness first draws from both overloads of element() in turn (2 draws per round, equal indices
+        -- would need equal draws: answers 1 unless they coincide), then the index through the const overload
+        let both := drawsAnswer count e fun e =>
+          let (i, e) := elementIdx size e
+          let (j, e) := elementIdx size e
+          ((if i = j then 0 else 1 : Int), e)
+        let idx := drawsAnswer count e fun e => let (v, e) := elementIdx size e; ((v : Int), e)
+        both ++ " | " ++ idx
+    | _, _, _ => "bad-op"
+  | ["ring", s, base, width, n, count] =>
+    match rEngineOf s, base.toNat?, width.toNat?, n.toNat?, count.toNat? with
+    | some e, some base, some width, some n, some count =>
+      if width = 0 ∨ n < 2 ∨ base ≥ n then "bad-op"
+      else drawsAnswer count e fun e => let (v, e) := ring base width n e; ((v : Int), e)
+    | _, _, _, _, _ => "bad-op"
+  | ["betd", s, a, b, count] =>
+    match rEngineOf s, a.toNat?, b.toNat?, count.toNat? with
+    | some e, some a, some b, some count => betdAnswer count e (Float.ofBits a.toUInt64) (Float.ofBits b.toUInt64)
+    | _, _, _, _ => "bad-op"
+  | ["bool", s, p, count] =>
+    match rEngineOf s, p.toNat?, count.toNat? with
+    | some e, some p, some count => boolAnswer count e (Float.ofBits p.toUInt64)
     | _, _, _ => "bad-op"
   | ["between", s, a, b, count] =>
     match s.toNat?, a.toInt?, b.toInt?, count.toNat? with
